@@ -247,6 +247,8 @@ def run_case(ctx, h, case, root):
            "status": "error", "props": [], "detail": "", "unwindset": {}}
     defs = dict(h.get("defs", {}))
     defs.update(case.get("defs", {}))
+    if h.get("malloc_may_fail"):
+        defs["VF_FAULT_ALLOC"] = None
     src = os.path.join(root, "vf_harness", h["src"])
     units = [os.path.join(root, u) for u in h.get("units", [])]
     t_all = time.time()
@@ -272,7 +274,7 @@ def run_case(ctx, h, case, root):
 
     # closed world: functions without body among those reachable from main
     gb1 = os.path.join(wd, "h1.gb")
-    rc, o, e, dt = run(["goto-instrument", "--add-library", gb, gb1], timeout=600)
+    rc, o, e, dt = run(["goto-instrument", "--no-malloc-may-fail", "--add-library", gb, gb1], timeout=600)
     if rc != 0:
         res["detail"] = "goto-instrument --add-library failed: " + (e or o)[-2000:]
         return res
@@ -313,10 +315,9 @@ def run_case(ctx, h, case, root):
            "--unwinding-assertions", "--no-standard-checks", "--drop-unused-functions"]
     checks = h.get("checks", DEFAULT_CHECKS)
     cmd += checks
-    if h.get("malloc_may_fail"):
-        cmd += ["--malloc-may-fail", "--malloc-fail-null"]
-    else:
-        cmd += ["--no-malloc-may-fail"]
+    # allocation faults are drawn from the tape (vf.h, VF_FAULT_ALLOC), never
+    # from CBMC's own nondeterministic malloc: they must replay natively
+    cmd += ["--no-malloc-may-fail"]
     if uw:
         cmd += ["--unwindset", ",".join("%s:%d" % (k, v) for k, v in uw.items())]
     if "unwind" in case or "unwind" in h:
@@ -418,6 +419,8 @@ def native_replay(ctx, h, case, root, tape, tag):
     exe = os.path.join(wd, "native")
     defs = dict(h.get("defs", {}))
     defs.update(case.get("defs", {}))
+    if h.get("malloc_may_fail"):
+        defs["VF_FAULT_ALLOC"] = None
     src = os.path.join(root, "vf_harness", h["src"])
     units = [os.path.join(root, u) for u in h.get("units", [])]
     if not os.path.exists(exe):
